@@ -209,6 +209,17 @@ add("C19",
     "resolution requirements calibrated (>= 8|Q| cells across, >= 3 cells margin); max_neighbouring_cell_angle is not "
     "part of the property and not asserted.")
 
+add("C20",
+    "Hypothesis-generated 2-d fields x plot kind x multiplier x auxiliary fields; oracle = inspection of the matplotlib "
+    "artists plus a pixel-lookup consumer",
+    "Generated-input search: AxesImage array/origin/extent and the pixel that the extent assigns to each cell centre, "
+    "Quiver positions, in-plane components (through the mapping or explicit vdims), hidden arrows and colour array, "
+    "ContourSet vertices of linear fields, rgba alpha of lightness plots, axis labels with prefixed units; cells that "
+    "are invalid or zero in a (possibly differently resolved) filter field must be hidden; field array, validity and "
+    "mesh must be byte-identical after plotting; unsupported dimensions must be refused.",
+    "Agg backend, public artist API; auxiliary-field ties on faces admit either neighbour; HLS colour values of "
+    "lightness plots are not decoded (only geometry, hidden cells and purity).")
+
 PENDING = {}
 
 
